@@ -165,7 +165,7 @@ add('C14', 'proof', 'Lean 4 theorems: naive decoder (min weight, corrects total 
     'total distance <= its weight (generic T-join lemma over any multigraph with a metric, with a boundary variant for the '
     'virtual plaquettes), so with any minimum-weight perfect matching the recovery XOR error is a stabilizer product whenever '
     '|X-support|, |Z-support| <= t = (min(R,C)-1)/2 — C02, C07, C08, C15 facts discharged; the only remaining hypothesis is '
-    'that the matching handed back is of minimum weight (networkx, see C13); the exact matcher meets that contract, and the recovery is the same for every iteration order of the returned set of mates (Props/C14/MatesOrder.lean); the Blossom V backend is bridged too: with a contract for the C routine (minimum-weight perfect matching of the integer graph on ids; satisfiable: exhaustive matcher) and R + C < infty/10 the modelled wrapper (node ids, contiguity assert, mates array, weight_to_int = identity on the integer distances of the decoders) hands back a minimum-weight perfect matching, so both backends of gt.mwpm correct (Props/C14/Blossom.lean; the wrapper model is tied to the real wrapper by C13's stand-in comparison) — 86 theorems. Tied to the code by exact '
+    'that the matching handed back is of minimum weight (networkx, see C13); the exact matcher meets that contract, and the recovery is the same for every iteration order of the returned set of mates (Props/C14/MatesOrder.lean); the Blossom V backend is bridged too: with a contract for the C routine (minimum-weight perfect matching of the integer graph on ids; satisfiable: exhaustive matcher) and R + C < infty/10 the modelled wrapper (node ids, contiguity assert, mates array, weight_to_int = identity on the integer distances of the decoders) hands back a minimum-weight perfect matching, so both backends of gt.mwpm correct (Props/C14/Blossom.lean; the wrapper model is tied to the real wrapper by the stand-in comparison of C13) — 86 theorems. Tied to the code by exact '
     'comparison of the naive decoder and by sweeping every error with |X|,|Z| <= t on planar and toric 2x2..4x5 (exhaustive) '
     'and samples beyond through the real decoders, verdict confirmed by the Lean driver and a span certificate.',
     TB + 'Minimality of the networkx matching is a hypothesis (tested against a verified optimum in C13).')
